@@ -416,6 +416,11 @@ class Component( ComponentLevel7 ):
               parent._dsl.adjacency[other].remove( x )
           del parent._dsl.adjacency[x]
 
+      # The constants connected inside the removed component are keys of
+      # all_adjacency too
+      for y in removed_consts:
+        top._dsl.all_adjacency.pop( y, None )
+
       for x in removed_components:
         del x._dsl.parent_obj
         del x._dsl.elaborate_top
